@@ -40,7 +40,7 @@ func init() {
 		Floors: func(t string) map[string]int64 {
 			return map[string]int64{"orbit.reversed_single_ring": 1000, "orbit.unclosed": 1000, "orbit.all_reversed": 500, "shape.with_holes": 500, "shape.hole_inside_the_box_of_another_hole": 150, "shape.multipolygon": 300,
 				"centroid.MultiPolygon": 1000, "centroid.Polygon": 500, "area.exact_equal": 5000, "area.float": 1000, "op.area": 500, "op.centroid": 500,
-				"distance.on_line": 500, "distance.beyond_end": 500, "distance.zero_length_segment": 200, "buffer": 500, "length": 1000, "line.long": 300, "storage.rings_share_one_backing_array": 1000, "shape.far_from_origin": 1000, "shape.float_far_from_origin": 500, "shape.island_in_a_hole_of_another_member": 100, "line.very_long": 100, "line.extreme_magnitude": 200}
+				"distance.on_line": 500, "distance.beyond_end": 500, "distance.zero_length_segment": 200, "buffer": 500, "length": 1000, "line.long": 300, "storage.rings_share_one_backing_array": 1000, "area.again_after_centroid_of_unclosed_spelling": 1000, "shape.far_from_origin": 1000, "shape.float_far_from_origin": 500, "shape.island_in_a_hole_of_another_member": 100, "line.very_long": 100, "line.extreme_magnitude": 200}
 		},
 	})
 }
@@ -524,6 +524,23 @@ func checkSpelling(c *core.Ctx, mp geom.MultiPolygon, sps []spelling, wantA, wan
 				}
 			})
 		}
+	}
+	// spellings with unclosed rings: their centroid is not defined by the property, but asking
+	// for it must leave the area what it was (the polygon is a value)
+	if !allClosed {
+		c.Eval()
+		c.Count("area.again_after_centroid_of_unclosed_spelling")
+		c.Guard("Centroid(unclosed spelling)", detail, func() {
+			for _, pg := range mp {
+				_ = pg.Centroid()
+			}
+			_ = pgl.Centroid()
+		})
+		c.Guard("MultiPolygon.Area", detail, func() {
+			if got := pgl.Area(); !okA(got) {
+				c.Violate("area-after-centroid:"+kind, fmt.Sprintf("MultiPolygon.Area() = %v after Centroid() had been called on the same value, exact area %v (it was right before)", got, wantA), detail)
+			}
+		})
 	}
 	// op.Area under its documented precondition (alternating winding)
 	if alternating {
